@@ -204,12 +204,13 @@ Qed.
 (* ---------------------------------------------------------------------------------------- *)
 (* 4. names                                                                                  *)
 (* ---------------------------------------------------------------------------------------- *)
-(* what the printer puts after a name: blank, comma, closing bracket or parenthesis, colon, hash, line feed *)
+(* what may stand after a name: blank, comma, closing bracket or parenthesis, colon, hash, line feed (what the printer
+   puts there), or a tab *)
 Definition is_delim (c : N) : bool :=
-  (c =? 32) || (c =? 44) || (c =? 93) || (c =? 41) || (c =? 58) || (c =? 35) || (c =? 10).
+  (c =? 32) || (c =? 44) || (c =? 93) || (c =? 41) || (c =? 58) || (c =? 35) || (c =? 10) || (c =? 9).
 
 
-Lemma delim_cases d : is_delim d = true -> d = 32 \/ d = 44 \/ d = 93 \/ d = 41 \/ d = 58 \/ d = 35 \/ d = 10.
+Lemma delim_cases d : is_delim d = true -> d = 32 \/ d = 44 \/ d = 93 \/ d = 41 \/ d = 58 \/ d = 35 \/ d = 10 \/ d = 9.
 Proof.
   unfold is_delim. intros H. repeat (apply orb_true_iff in H; destruct H as [H|H]); apply N.eqb_eq in H; tauto.
 Qed.
@@ -230,7 +231,7 @@ Lemma eqb_small c k : k < c -> (c =? k) = false.
 Proof. intros H. apply N.eqb_neq. lia. Qed.
 
 Lemma delim_not_id d : is_delim d = true -> is_id_char d = false.
-Proof. intros H. destruct (delim_cases d H) as [->|[->|[->|[->|[->|[->| ->]]]]]]; reflexivity. Qed.
+Proof. intros H. destruct (delim_cases d H) as [->|[->|[->|[->|[->|[->|[->| ->]]]]]]]; reflexivity. Qed.
 
 Lemma run_len_app p a d rest : forallb p a = true -> p d = false -> run_len p (a ++ d :: rest) = length a.
 Proof.
@@ -243,7 +244,7 @@ Definition nq (x : N) : Prop := (x =? 34) = false /\ (x =? 39) = false.
 Lemma nq_id x : is_id_char x = true -> nq x.
 Proof. intros H. apply id_char_ge in H. split; apply eqb_small; lia. Qed.
 Lemma nq_delim d : is_delim d = true -> nq d /\ (d =? 114) = false /\ (d =? 82) = false.
-Proof. intros H. destruct (delim_cases d H) as [->|[->|[->|[->|[->|[->| ->]]]]]]; repeat split; reflexivity. Qed.
+Proof. intros H. destruct (delim_cases d H) as [->|[->|[->|[->|[->|[->|[->| ->]]]]]]]; repeat split; reflexivity. Qed.
 
 Lemma quoted_zero q esc x t : (x =? q) = false -> quoted q esc (x :: t) = 0%nat.
 Proof. intros H. unfold quoted. rewrite H. reflexivity. Qed.
@@ -267,7 +268,7 @@ Qed.
 Lemma ext_tail_le d rest : is_delim d = true -> forall f a, forallb is_id_char a = true -> (ext_tail f (a ++ d :: rest) <= length a)%nat.
 Proof.
   intros Hd. assert (Hda : is_alnum_ d = false /\ is_ext_sep d = false).
-  { destruct (delim_cases d Hd) as [->|[->|[->|[->|[->|[->| ->]]]]]]; split; reflexivity. }
+  { destruct (delim_cases d Hd) as [->|[->|[->|[->|[->|[->|[->| ->]]]]]]]; split; reflexivity. }
   destruct Hda as [Hda Hds].
   induction f as [|f IH]; intros a Ha; [cbn; lia|]. destruct a as [|x a]; cbn [app ext_tail length].
   - rewrite Hda, Hds. lia.
